@@ -68,7 +68,8 @@ def obls : TExpr → List Obl
   -- method callees and array literals: modelled and tied, not yet given a declarative rule (counted as not covered)
   | .mvar _ _ _ => [.bad]
   | .array items _ => oblsL items ++ [.bad]
-  | .constr _ args _ => oblsL args ++ [.bad]
+  -- a constructor application: its instantiated type agrees with `(argument types) -> type of the node`
+  | .constr cty args ty => oblsL args ++ [if args.isEmpty then .rel cty ty else .rel cty (.func (tysOf args) ty)]
   | .prim _ => []
   | .tuple items ty => oblsL items ++ [.same ty (.tuple (tysOf items))]
   | .closure ps body ty => boundsOf ps ++ obls body ++ [.same ty (.func (sndL ps) body.ty)]
